@@ -7,6 +7,7 @@ import (
 	"os"
 	"sort"
 	"strconv"
+	"strings"
 	"testing"
 	"time"
 
@@ -245,13 +246,17 @@ func TestWorker(t *testing.T) {
 	if replayDir == "" {
 		replayDir = "."
 	}
-	known := map[string]bool{}
+	var knownPats []string
 	if kp := os.Getenv("VERIF_KNOWN_SIGS"); kp != "" {
-		var ks []string
-		json.Unmarshal([]byte(kp), &ks)
-		for _, k := range ks {
-			known[k] = true
+		json.Unmarshal([]byte(kp), &knownPats)
+	}
+	isKnown := func(sig string) bool {
+		for _, p := range knownPats {
+			if globMatch(p, sig) {
+				return true
+			}
 		}
+		return false
 	}
 
 	start := time.Now()
@@ -259,6 +264,7 @@ func TestWorker(t *testing.T) {
 	hashes := map[uint64]bool{}
 	states := map[string]bool{}
 	reported := map[string]bool{}
+	var pending []Replay
 	for i := int64(0); i < maxRuns; i++ {
 		if time.Since(start) > budget {
 			break
@@ -315,32 +321,39 @@ func TestWorker(t *testing.T) {
 			reported[v.Sig] = true
 			rp := Replay{Property: prop, Tier: tier, Seed: seed, Run: run, Sig: v.Sig, Detail: v.Detail,
 				Choices: c.Values(), SchedHash: res.SchedHash, Steps: res.Steps, OrigDraws: len(c.Rec), Sample: res.Sample}
-			if !known[v.Sig] {
-				minVals, execs := minimise(t, sc, tier, c.Values(), v.Sig, 300)
-				// re-run minimised to collect labels and detail
-				mc := simrt.NewReplayChoice(minVals)
-				mc.KeepLabels(true)
-				mres := runOnce(t, sc, mc, tier, false)
-				if hasSig(mres, v.Sig) {
-					rp.Choices = minVals
-					rp.Minimised = true
-					rp.Execs = execs
-					rp.Labels = mc.Rec
-					rp.SchedHash = mres.SchedHash
-					rp.Steps = mres.Steps
-					rp.Sample = mres.Sample
-					for _, mv := range mres.Violations {
-						if mv.Sig == v.Sig {
-							rp.Detail = mv.Detail
-						}
+			pending = append(pending, rp)
+		}
+	}
+	// minimise after the exploration budget, so that many distinct signatures do not starve the search
+	minStart := time.Now()
+	for _, rp := range pending {
+		if !isKnown(rp.Sig) && time.Since(minStart) < 45*time.Second {
+			minVals, execs := minimise(t, sc, tier, rp.Choices, rp.Sig, 200)
+			mc := simrt.NewReplayChoice(minVals)
+			mc.KeepLabels(true)
+			mres := runOnce(t, sc, mc, tier, false)
+			if hasSig(mres, rp.Sig) {
+				rp.Choices = minVals
+				rp.Minimised = true
+				rp.Execs = execs
+				rp.Labels = mc.Rec
+				if len(rp.Labels) > len(minVals)+40 {
+					rp.Labels = rp.Labels[:len(minVals)+40]
+				}
+				rp.SchedHash = mres.SchedHash
+				rp.Steps = mres.Steps
+				rp.Sample = mres.Sample
+				for _, mv := range mres.Violations {
+					if mv.Sig == rp.Sig {
+						rp.Detail = mv.Detail
 					}
 				}
 			}
-			name := fmt.Sprintf("%s/%s-%s-seed%d-run%d.json", replayDir, prop, sanitize(v.Sig), seed, run)
-			b, _ := json.MarshalIndent(rp, "", " ")
-			os.WriteFile(name, b, 0o644)
-			emit(msg{Type: "violation", Worker: worker, Sig: v.Sig, Detail: rp.Detail, Replay: name, Run: run})
 		}
+		name := fmt.Sprintf("%s/%s-%s-seed%d-run%d.json", replayDir, prop, sanitize(rp.Sig), seed, rp.Run)
+		b, _ := json.MarshalIndent(rp, "", " ")
+		os.WriteFile(name, b, 0o644)
+		emit(msg{Type: "violation", Worker: worker, Sig: rp.Sig, Detail: rp.Detail, Replay: name, Run: rp.Run})
 	}
 	for h := range hashes {
 		sum.Hashes = append(sum.Hashes, strconv.FormatUint(h, 16))
@@ -379,4 +392,28 @@ func TestMeta(t *testing.T) {
 	}
 	b, _ := json.Marshal(map[string]any{"level": sc.Level, "rule": sc.Rule, "real": sc.Real, "stub": sc.Stub, "assumptions": sc.Assumptions})
 	fmt.Println(string(b))
+}
+
+// globMatch: '*' in pattern matches any text.
+func globMatch(pattern, sig string) bool {
+	parts := strings.Split(pattern, "*")
+	if len(parts) == 1 {
+		return pattern == sig
+	}
+	if !strings.HasPrefix(sig, parts[0]) {
+		return false
+	}
+	rest := sig[len(parts[0]):]
+	for i := 1; i < len(parts); i++ {
+		p := parts[i]
+		if i == len(parts)-1 {
+			return strings.HasSuffix(rest, p)
+		}
+		j := strings.Index(rest, p)
+		if j < 0 {
+			return false
+		}
+		rest = rest[j+len(p):]
+	}
+	return true
 }
